@@ -142,6 +142,11 @@ func pathMatches(matcher, uri, rpath string) bool {
 
 // the route's host pattern is normalised like the request host (a default port is dropped)
 func hostMatches(cfg LookupCfg, pattern, normHost string, tls bool) bool {
+	if np := NormHost(pattern, tls); np != strings.ToLower(pattern) && hasPort(normHost) {
+		// the pattern names the default port ('*:80'): a request for another port ('example.com:3000') is not for it,
+		// although the wildcard that is left after dropping ':80' would swallow that port
+		return false
+	}
 	pattern = NormHost(pattern, tls)
 	if cfg.GlobDisabled {
 		return pattern == normHost
@@ -222,4 +227,17 @@ func pathLen(matcher, p string) int {
 		return len(strings.TrimSuffix(p, "*"))
 	}
 	return len(p)
+}
+
+func hasPort(host string) bool {
+	i := strings.LastIndexByte(host, ':')
+	if i < 0 || strings.HasSuffix(host, "]") {
+		return false
+	}
+	for _, ch := range host[i+1:] {
+		if ch < '0' || ch > '9' {
+			return false
+		}
+	}
+	return i+1 < len(host)
 }
